@@ -61,7 +61,7 @@ func main() {
 		}
 		if e.Monitor != nil && *mon > 0 {
 			cnt := 0
-			e.Monitor(r.Fork(), *mon, func(v apps.Violation) {
+			e.Monitor(r.Fork(), *mon, func(v apps.Viol) {
 				if cnt < 20 {
 					vs.Put(v)
 				}
